@@ -4,9 +4,35 @@ import json
 import os
 
 V = os.path.dirname(os.path.dirname(os.path.abspath(__file__)))
-HOOK_COMMITS = ["9b615ed", "0f2a307"]
+HOOK_COMMITS = ["9b615ed", "0f2a307", "ccdb599"]
 
 CHECKS = {
+ "C01": dict(
+  category="model_checking",
+  text="TLC checks on the reference reader (spec/ShellLex.tla) that every argument text up to length 2 (thorough 3) over the "
+       "30-symbol metacharacter alphabet, in every admissible quoting style, position and operator context, is read back as "
+       "exactly that argument with no operator recognised inside it; every behaviour is a replay case: the real line_to_cmds + "
+       "CommandLine::from_line must plan exactly those argv in-process, every kind of mismatch and a sample of matches is run "
+       "through the real binary with an argv-dumping helper, and only process-level mismatches are violations. TLC-simulated "
+       "argument lists (0..6 arguments up to length 8) extend the bound.",
+  design_ref="DESIGN.md 3.1, 6 (C01)",
+  note="Trusted: TLC, the reference reader as the meaning of the three quoting styles, helper vpa; in-process plan = what the binary "
+       "executes (sampled at process level). Known findings (backslash style only) are listed in known_findings.json.",
+  technique="TLA+ reference reader + TLC enumeration of quoted lines; exhaustive in-process replay, process-level confirmation"),
+ "C06": dict(
+  category="model_checking",
+  text="TLC explores every interleaving of child status changes (with Linux's report coalescing), foreground-wait iterations, "
+       "prompt-time polls and fg/bg builtins for several job configurations with non-monotonic pids (spec/JobControl.tla, one "
+       "action per critical section of jobc.rs/shell.rs/signals.rs) and checks table = live processes, Stopped iff all live "
+       "members stopped, smallest-free ids, the return point and status of the foreground wait, and no stuck parked event, all "
+       "against kernel truth. TLC-generated behaviours are replayed on a real Shell through an injectable wait-status source; "
+       "after every real call (insert_job, wait_fg_job, try_wait_bg_jobs, fg, bg) the real table is judged against kernel truth "
+       "and compared with the model's table (spec drift is reported, currently 0).",
+  design_ref="DESIGN.md 3.7, 6 (C06)",
+  note="Trusted: TLC; the kernel model (measured against Linux); the cfg(cicada_verif) injection point in waitpidx/handle_sigchld; "
+       "the harness mirrors run_pipeline's insert_job calls (the real launch path is C07's). Bounded: <= 3 jobs, <= 3 processes, "
+       "<= 11 events.",
+  technique="TLA+ model of job control checked by TLC; TLC-generated behaviours replayed in-process through a fake kernel, table compared with kernel truth after each call"),
  "C03": dict(
   category="model_checking",
   text="TLC exhaustively checks the token loop of run_command_line (spec/CmdList.tla, one action per loop iteration) against "
